@@ -15,8 +15,9 @@ TRUSTED = [
     "covered end to end by the spec checker on the real output only (test, not proof)",
 ]
 ASSUME = [
-    "time-range/occupancy pruning is sound for stored documents (hypothesis info_sound of thm C04_fetch_exact; "
-    "proved for fractions without occupancy map, property C14 for the map)",
+    "time-range/occupancy pruning is sound for stored documents (hypothesis info_sound B of thm C04_fetch_exact; "
+    "proved here for fractions without occupancy map (C04_pruning_sound_without_map), property C14 for the map; the "
+    "model still executes the map: midToIndex as repaired by 6d376ea and the bytewise HasBitsIn)",
     "the sealed ID table is the descending sort of the fraction's IDs behind the (MaxUint64,MaxUint64) sentinel and "
     "MinBlockIDs[b] is the last ID of block b (sealing is C03/C08)",
     "IDs inside one request are distinct and an ID is stored in at most one fraction (the property's quantifier)",
@@ -25,8 +26,10 @@ RULE = ("real stores (1-4 fractions, sealed + at most one active, optional resta
         "sealed fractions span several ID blocks of 4096) x requests: present / absent / mixed in any order, absent IDs "
         "generated relative to every fraction's borders (From/To with smaller/larger random part, just outside, "
         "neighbours of stored IDs, 0, 2^63, MaxUint64), >1000 IDs with 1-3 small documents found, documents up to "
-        "64 KiB so that chunks shrink, right/wrong/unknown fraction hints, repeated IDs; plus calcChunkSize on "
-        "generated size vectors. non-trivial = request mixes present and absent IDs or needs more than one batch "
+        "64 KiB so that chunks shrink, right/wrong/unknown fraction hints, repeated IDs, the same ID in two fractions; "
+        "scenario kind 'recent' (timestamps of the last 20 minutes, the only wall-clock dependent inputs) so that the "
+        "occupancy-map window holds the documents, with the regression class mid-above-int64 (stored IDs + an ID whose "
+        "MID >= 2^63); thorough: requests of 20k and 100k IDs; plus calcChunkSize on generated size vectors. non-trivial = request mixes present and absent IDs or needs more than one batch "
         "(calc: 0 < found bytes < number of IDs); distinct by input")
 
 
